@@ -796,6 +796,10 @@ func VH_template(which int) {
 		toks = T(int(token.FOR), LP, S, S, RP, -1, I, -1, I, S)
 	case 17: // then-branch position:  if ( a ) h x h y ;
 		toks = T(int(token.IF), LP, I, RP, -1, I, -1, I, S)
+	case 19: // two ifs, two else positions:  if ( a ) if ( b ) c ; h d ; h e ;
+		toks = T(int(token.IF), LP, I, RP, int(token.IF), LP, I, RP, I, S, -1, I, S, -1, I, S)
+	case 20: // else-if ladder:  if ( a ) b ; else if ( c ) d ; h e ; h f ;
+		toks = T(int(token.IF), LP, I, RP, I, S, int(token.ELSE), int(token.IF), LP, I, RP, I, S, -1, I, S, -1, I, S)
 	default: // declaration position inside a function body:  fun f ( ) { h x h y ; }
 		toks = T(int(token.FUN), I, LP, RP, int(token.LEFT_BRACE), -1, I, -1, I, S, int(token.RIGHT_BRACE))
 	}
